@@ -15,6 +15,7 @@ import (
 	codectypes "github.com/cosmos/cosmos-sdk/codec/types"
 	txtypes "github.com/cosmos/cosmos-sdk/types/tx"
 	"github.com/cosmos/cosmos-sdk/x/authz"
+	govv1 "github.com/cosmos/cosmos-sdk/x/gov/types/v1"
 	"github.com/cometbft/cometbft/libs/log"
 	"github.com/cosmos/cosmos-sdk/baseapp"
 
@@ -170,6 +171,14 @@ func (e *Env) BuildGenesis(a *app.App, gs *GenesisSpec) ([]byte, *Model) {
 	if err != nil {
 		panic(err)
 	}
+	// governance that simulated accounts can drive: a deposit of 1umed opens the voting period, which lasts 10 s of
+	// block time; account 0 holds the only delegation, so its vote decides
+	var gg govv1.GenesisState
+	e.Cdc.MustUnmarshalJSON(state["gov"], &gg)
+	vp := 10 * time.Second
+	gg.Params.MinDeposit = sdk.NewCoins(sdk.NewInt64Coin(FeeDenom, 1))
+	gg.Params.VotingPeriod = &vp
+	state["gov"] = e.Cdc.MustMarshalJSON(&gg)
 	custom, m := e.BuildGenesisModelOnly(gs)
 	for k, v := range custom {
 		state[k] = v
@@ -286,6 +295,76 @@ type SignerUse struct {
 	Seq      uint64
 	ChainID  string
 	BodyHash string // hash of the message list + fee + memo the signature was made over
+	Shape    bodyShape // of the message list the signature was made over
+}
+
+// bodyShape separates what a message list says from which message types say it: Types is the list of type URLs
+// (nested ones included), Content a hash of the field values with every type URL and every empty value removed.
+// Two lists with different Types and equal Content are "sibling types with equal field values" - the one shape of
+// sign-bytes collision that the missing amino type names (known finding F10) explain.
+type bodyShape struct{ Types, Content string }
+
+func shapeOf(cdc codec.Codec, msgs []sdk.Msg) bodyShape {
+	var types []string
+	h := sha256.New()
+	var strip func(v interface{}) interface{}
+	strip = func(v interface{}) interface{} {
+		switch t := v.(type) {
+		case map[string]interface{}:
+			out := map[string]interface{}{}
+			for k, x := range t {
+				if k == "@type" {
+					types = append(types, fmt.Sprint(x))
+					continue
+				}
+				if y := strip(x); y != nil {
+					out[k] = y
+				}
+			}
+			if len(out) == 0 {
+				return nil
+			}
+			return out
+		case []interface{}:
+			var out []interface{}
+			for _, x := range t {
+				out = append(out, strip(x)) // positions matter: keep nils
+			}
+			if len(out) == 0 {
+				return nil
+			}
+			return out
+		case string:
+			if t == "" {
+				return nil
+			}
+		case bool:
+			if !t {
+				return nil
+			}
+		case float64:
+			if t == 0 {
+				return nil
+			}
+		}
+		return v
+	}
+	for _, m := range msgs {
+		bz, err := cdc.MarshalInterfaceJSON(m)
+		if err != nil {
+			h.Write([]byte("unmarshalable"))
+			continue
+		}
+		var v interface{}
+		if json.Unmarshal(bz, &v) != nil {
+			h.Write(bz)
+			continue
+		}
+		nb, _ := json.Marshal(strip(v))
+		h.Write(nb)
+		h.Write([]byte{0})
+	}
+	return bodyShape{Types: fmt.Sprint(types), Content: fmt.Sprintf("%x", h.Sum(nil)[:12])}
 }
 
 type BuiltTx struct {
@@ -300,6 +379,7 @@ type BuiltTx struct {
 	// AltSignBytes: for a tampered transaction, what the same signers would have had to sign for the
 	// delivered (tampered) message list — used for the injectivity check of C14.
 	AltSignBytes [][]byte
+	Shape        bodyShape // of the delivered message list
 }
 
 func msgsHash(cdc codec.Codec, msgs []sdk.Msg, fee sdk.Coins, gas uint64) string {
@@ -373,6 +453,7 @@ func (e *Env) BuildTx(p TxParams) (bt *BuiltTx, err error) {
 	}
 	out := &BuiltTx{Msgs: p.Msgs, Fee: p.Fee, Gas: p.Gas}
 	signedHash := msgsHash(e.Cdc, signMsgs, p.Fee, p.Gas)
+	signedShape := shapeOf(e.Cdc, signMsgs)
 	for i, ai := range p.Signers {
 		acc := e.Accs[ai]
 		mode := ModeDirect
@@ -389,7 +470,7 @@ func (e *Env) BuildTx(p TxParams) (bt *BuiltTx, err error) {
 			return nil, err
 		}
 		sigs[i].Data = &signing.SingleSignatureData{SignMode: mode.sdk(), Signature: sg}
-		out.Sigs = append(out.Sigs, SignerUse{Acc: ai, Mode: mode, AccNum: p.AccNums[i], Seq: p.Seqs[i], ChainID: p.ChainID, BodyHash: signedHash})
+		out.Sigs = append(out.Sigs, SignerUse{Acc: ai, Mode: mode, AccNum: p.AccNums[i], Seq: p.Seqs[i], ChainID: p.ChainID, BodyHash: signedHash, Shape: signedShape})
 		out.SignBytes = append(out.SignBytes, bz)
 	}
 	fb := sb
@@ -420,6 +501,7 @@ func (e *Env) BuildTx(p TxParams) (bt *BuiltTx, err error) {
 	}
 	out.Bytes = bz
 	out.BodyHash = msgsHash(e.Cdc, p.Msgs, p.Fee, p.Gas)
+	out.Shape = shapeOf(e.Cdc, p.Msgs)
 	if len(p.Signers) > 0 {
 		out.Payer = e.Accs[p.Signers[0]].Addr
 	}
